@@ -215,17 +215,45 @@ fn main() {
     let sub2: Vec<&V> = u_build.iter().step_by(stride).take(mt_n).collect();
     let s_mt = check_max_tag(&ctx, &sub2);
 
+    // the greatest tag among *names* as git lists them: valid SemVer tags mixed with names that are not SemVer, in every
+    // order, through the real tag filter (filter_only_valid_tags with the explicit semver format) and find_max_version_tag
+    let s_names = {
+        let pool = ["v1.0.0", "v1.10.0", "v1.2.0", "1.0.0-rc.10", "nightly", "v1", "1.0.0rc11", "v2.0.0-alpha", "latest-1.0", "v1.10.0+b"];
+        let mut lists: Vec<Vec<&str>> = vec![];
+        fn go<'a>(pool: &[&'a str], cur: &mut Vec<&'a str>, out: &mut Vec<Vec<&'a str>>, max: usize) { if !cur.is_empty() { out.push(cur.clone()); } if cur.len() == max { return; } for p in pool { if !cur.contains(p) { cur.push(p); go(pool, cur, out, max); cur.pop(); } } }
+        go(&pool, &mut vec![], &mut lists, if quick { 3 } else { 4 });
+        lists.par_iter().map(|names| {
+            let mut st = Stats::default();
+            st.inc("max_tag_name_lists");
+            let owned: Vec<String> = names.iter().map(|s| s.to_string()).collect();
+            let valid: Vec<&str> = names.iter().copied().filter(|n| rsv::accepts(n)).collect();
+            let got = catch(|| { let v = GitUtils::filter_only_valid_tags(&owned, "semver"); GitUtils::find_max_version_tag(&v) });
+            let key = format!("{names:?}");
+            let case = json!({"kind":"maxtag-names","tags":names});
+            match got {
+                Err(p) => ctx.violation(&format!("panic@{}", p.file()), key, case, p.message),
+                Ok(Err(e)) => ctx.violation("max_tag_failed", key, case, e.to_string()),
+                Ok(Ok(None)) => if !valid.is_empty() { ctx.violation("max_tag_missing", key, case, format!("no tag returned although {valid:?} are valid SemVer")); },
+                Ok(Ok(Some(t))) => {
+                    if !valid.contains(&t.as_str()) { ctx.violation("max_tag_not_a_member", key, case, format!("returned {t:?}")); }
+                    else { let tp = rsv::parse(&t).unwrap(); if valid.iter().any(|v| rsv::cmp(&rsv::parse(v).unwrap(), &tp) == Ordering::Greater) { ctx.violation("max_tag_not_maximal", key, case, format!("returned {t}, valid tags {valid:?}")); } }
+                }
+            }
+            st
+        }).reduce(Stats::default, Stats::merge)
+    };
+
     // determinism replay on the build universe
     if check_pairs(&ctx, &u_build).digest != s_build.digest { machinery_error("determinism replay diverged"); }
 
-    let all = s_main.clone().merge(s_build.clone()).merge(s_wide.clone()).merge(s_hyph).merge(s_tri.clone()).merge(s_mt.clone());
+    let all = s_main.clone().merge(s_build.clone()).merge(s_wide.clone()).merge(s_hyph).merge(s_tri.clone()).merge(s_mt.clone()).merge(s_names);
     let mut cov = Coverage::default();
     cov.states = (u_main.len() + u_build.len() + u_wide.len() + u_hyph.len()) as u64;
     cov.transitions = all.get("pairs");
     cov.evaluations = all.get("pairs") + all.get("triples") + all.get("max_tag_sets");
     cov.traces_validated = cov.evaluations;
     cov.distinct_nontrivial = all.get("want_less") + all.get("want_greater");
-    cov.rule = format!("versions are built as strings and parsed by the real parser; universe U1 = core numbers {nums:?}^3 x pre-release lists of length <=3 over {ids:?} ({} versions, all ordered pairs vs the reference comparator); U2 adds build metadata variants ({}), U3 wide numbers up to u64::MAX ({}); U4 hyphenated identifiers (rc-2, rc-10, 1-0, -, ...) in lists of length <=2 ({}); all ordered triples of a {}-element sub-universe (transitivity, no reference); find_max_version_tag on all ordered selections of <=3 tags from {} versions. non-trivial = ordered pairs whose precedence differs (not Equal)", u_main.len(), u_build.len(), u_wide.len(), u_hyph.len(), sub.len(), sub2.len());
+    cov.rule = format!("versions are built as strings and parsed by the real parser; universe U1 = core numbers {nums:?}^3 x pre-release lists of length <=3 over {ids:?} ({} versions, all ordered pairs vs the reference comparator); U2 adds build metadata variants ({}), U3 wide numbers up to u64::MAX ({}); U4 hyphenated identifiers (rc-2, rc-10, 1-0, -, ...) in lists of length <=2 ({}); all ordered triples of a {}-element sub-universe (transitivity, no reference); find_max_version_tag on all ordered selections of <=3 tags from {} versions, and through the real tag filter on all ordered selections of <=3 (thorough 4) names from a pool of 10 that mixes SemVer tags with non-SemVer names. non-trivial = ordered pairs whose precedence differs (not Equal)", u_main.len(), u_build.len(), u_wide.len(), u_hyph.len(), sub.len(), sub2.len());
     cov.exhaustive = true;
     cov.samples = vec![json!({"a": u_main[u_main.len()/3].text, "b": u_main[u_main.len()/2].text}), json!({"a": u_build[5].text, "b": u_build[6].text}), json!({"a": u_wide[u_wide.len()-1].text, "b": u_wide[u_wide.len()/2].text})];
     cov.set("clause_counts", all.to_json());
